@@ -231,7 +231,7 @@ static Outcome run(tape_t const& tape)
                 if (ch->spec.wait_until_all_blocked)
                 {
                     // (bounded: waiters of this round that were faster are simply not inside the wait any more)
-                    for (int spin = 0; spin < 2000 && ch->in_wait.load() < ch->spec.k; ++spin)
+                    for (int spin = 0; spin < 200 && ch->in_wait.load() < ch->spec.k; ++spin)
                     {
                         if (on_task) pika::this_thread::yield(); else sched_yield();
                     }
